@@ -19,7 +19,7 @@
    whose denotation over R (FisherProofs.denote) is
        -(k/2) ln 3 + sum (1/2 ln I_i + ln |theta_i|) .
    No proofs in this file. *)
-From Coq Require Import QArith ZArith List Bool.
+From Coq Require Import QArith Qround ZArith List Bool.
 Import ListNotations.
 
 (* ------------------------------------------------------------------ numbers *)
@@ -58,13 +58,13 @@ Definition enum {A} (l : list A) : list (nat * A) := combine (seq 0 (length l)) 
 Definition memn (i : nat) (l : list nat) : bool := existsb (Nat.eqb i) l.
 (* th = copy(orig); for i in idx: th[i] = 0. *)
 Definition zero_at (idx : list nat) (th : list Q) : list Q :=
-  map (fun p => if memn (fst p) idx then 0%Q else snd p) (enum th).
+  map (fun p : nat * Q => if memn (fst p) idx then 0%Q else snd p) (enum th).
 (* th[m] = 0.  for a boolean mask m *)
 Definition zero_mask (m : list bool) (th : list Q) : list Q :=
-  map (fun p => if fst p then 0%Q else snd p) (combine m th).
+  map (fun p : bool * Q => if fst p then 0%Q else snd p) (combine m th).
 (* mask[idx] = 0 *)
 Definition clear_at (idx : list nat) (m : list bool) : list bool :=
-  map (fun p => if memn (fst p) idx then false else snd p) (enum m).
+  map (fun p : nat * bool => if memn (fst p) idx then false else snd p) (enum m).
 (* np.arange(n)[m] *)
 Definition idx_of (m : list bool) : list nat := map fst (filter snd (enum m)).
 (* a[m] *)
